@@ -14,6 +14,7 @@ RULE = ("Generated programs (one third written with generated whitespace / comme
         "seeded identically on both sides when the experiment has no splitter. Non-trivial = program with a conditional and "
         "a salt or splitters, both layouts executed; distinct by (text, layout).")
 RULE += (' Since rounds 6-7: unprintable / unhashable inputs (ints beyond the digit limit, lone surrogates), two faults at once, values whose every use raises a bare exception.')
+RULE += (' Since rounds 14-15: evaluator and generated module compared under extra keyword arguments named almost like the fields.')
 ASSUMPTIONS = [
     "the generated text may import from pyab_experiment (it does so by design); 'stand-alone' means exec in an empty namespace",
 ]
